@@ -42,6 +42,7 @@ type g17 struct {
 	ncl                int
 	shut               bool
 	hadFail            bool
+	slow               bool
 }
 
 func newG17(r *rand.Rand, i int) *g17 {
@@ -380,7 +381,35 @@ func (g *g17) lineShutdown() {
 	g.settle()
 }
 
+// thorough tier only: the registry's own 10 s limit (no deadline from the client)
+func (g *g17) tenSeconds() {
+	g.lineBegin2(1, false, 0)
+	m := []string{"rw", "ro"}[g.r.Intn(2)]
+	g.emit("begin 2 %s 0", m)
+	g.begin(2, m == "ro", 0)
+	if g.r.Intn(2) == 0 {
+		g.lineSleep(5000)
+		g.emit("put 1 1 1")
+		g.touch(1)
+		g.lineSleep(5200)
+	} else {
+		g.lineSleep(10200)
+	}
+}
+
+func (g *g17) lineBegin2(c int, ro bool, d int) {
+	m := "rw"
+	if ro {
+		m = "ro"
+	}
+	g.emit("begin %d %s %d", c, m, d)
+	g.begin(c, ro, d)
+}
+
 func (g *g17) program() {
+	if g.slow {
+		g.tenSeconds()
+	}
 	n := 6 + g.r.Intn(18)
 	for i := 0; i < n; i++ {
 		switch pick(g.r, 74, 14, 5, 3, 1, 2) {
